@@ -1342,7 +1342,7 @@ func (d *Data) NewVoxels(geom dvid.Geometry, img interface{}) (*Voxels, error) {
 			return nil, fmt.Errorf("Illegal geometry requested: %s", geom)
 		}
 		requestSize := int64(bytesPerVoxel) * numVoxels
-		if requestSize > server.MaxDataRequest {
+		if requestSize <= 0 || requestSize > server.MaxDataRequest {
 			return nil, fmt.Errorf("Requested payload (%d bytes) exceeds this DVID server's set limit (%d)",
 				requestSize, server.MaxDataRequest)
 		}
